@@ -91,6 +91,42 @@ def check_concurrent_tickets(ctx, fb, rule, floor=None):
     return n
 
 
+def errno_discipline(ctx, rule, fb):
+    """a decision taken on `errno == <code>` after a call is only meaningful when errno was reset before that call: on every
+    path from the function entry, and from the call itself around the loop back to it, an `errno = 0` precedes the call
+    (a successful futex wake-up leaves errno untouched, so a stale ETIMEDOUT of an earlier timed wait on the same thread
+    would end the wait loop with the slot still owned by somebody else)"""
+    n = 0
+    for fn in fb.find(pred=lambda f: f.has_cfg() and re.search(r"ConcurrentBoundedQueue<.*>::SlotFutex$", f.record or "")):
+        ig = IG(fn, inline=lambda a, b, c: False)
+        live = ig.live_nodes()
+        elocs = set(x.id for x in ig.ev_nodes() if x.id in live and x.ev["e"] == "call" and x.ev.get("name") == "__errno_location")
+
+        def is_errno(d):
+            d = strip_cast(d)
+            return isinstance(d, dict) and d.get("k") == "u" and d.get("op") == "*" and ig.ev_of(strip_cast(d.get("x"))) is not None and \
+                ig.ev_of(strip_cast(d.get("x"))).id in elocs
+
+        def errno_test(atom, pol, lab):
+            c = L.effective_cmp(atom, pol)
+            return c is not None and c[0] in ("==", "!=") and is_errno(c[1]) and isinstance(const_val(c[2]), int)
+        tests = L.cond_edges(ig, errno_test, live)
+        if not tests:
+            continue
+        resets = [x for x in ig.ev_nodes() if x.id in live and x.ev["e"] == "asg" and x.ev.get("op") == "=" and
+                  is_errno(ig.resolve(x.ev.get("lhs"), x.frame)) and const_val(x.ev.get("rhs")) == 0]
+        waits = [x for x in ig.ev_nodes() if x.id in live and x.ev["e"] == "call" and x.ev.get("name") == "wait" and
+                 any(ig.path_exists(x, ig.nodes[s_]) for (s_, d_) in tests)]
+        for w in waits:
+            n += 1
+            ok = bool(resets) and ig.dominated_by(w, resets) and w.id not in ig.reach([w], removed=resets, include_starts=False)
+            ctx.ob(rule, "%s@%s" % (L.short(fn)[:100], w.line), ok, w.where,
+                   "the wait loop decides on errno after this wait but errno is not reset before it on every path: a stale ETIMEDOUT "
+                   "from an earlier timed wait of the same thread ends the loop on the first wake-up, and the caller runs its callback "
+                   "on a slot it does not own", site="%s@errno-reset" % fn.name)
+    return n
+
+
 def run(ctx):
     fb = ctx.fb
     cs = carriers(fb)
@@ -450,6 +486,9 @@ def run(ctx):
                        "wrong phase of the round" % ("push" if pp == "true" else "pop", "push" if pp == "true" else "pop", sorted(set(names))),
                        site="%s@version-mapping" % fn.name)
     ctx.floor("C01.R9", n9, 100, "slot accesses and version mappings")
+
+    # ---------------------------------------------------------------- R10 errno is reset before a wait whose errno is tested
+    errno_discipline(ctx, "C01.R10", fb)       # conditional: applies where a wait loop tests errno at all
 
 
 SWEEP = ["concurrent/test_bounded_queue.cpp", "concurrent/test_bounded_queue_press_mpmc.cpp", "concurrent/test_execution_queue.cpp",
